@@ -1156,6 +1156,9 @@ func (ex *Exec) doUnOp(in *ssa.UnOp) {
 		v = c.define(ex.fnPrefix()+in.Name(), v)
 		c.assume(Implies(ex.rch, ex.typeFacts(v, in.Type())))
 		ex.vals[in] = Val{T: v, Ty: in.Type()}
+		if g, ok := in.X.(*ssa.Global); ok {
+			ex.globalRegexpFacts(g, v)
+		}
 	case token.NOT:
 		ex.set(in, Val{T: Not(ex.val(in.X).T), Ty: in.Type()})
 	case token.SUB:
